@@ -448,14 +448,14 @@ func (w *World) invoke(r *Reg, ft reflect.Type, args []reflect.Value) []reflect.
 				inv.Outs = append(inv.Outs, nil) // res[i] stays the zero (nil) interface
 				continue
 			}
-			e, obj := w.newEntry(r, i, o.Impl, inv)
+			e, obj := w.newEntry(r, i, o.implFor(inv), inv)
 			inv.Outs = append(inv.Outs, e)
 			res[i] = obj.Convert(ft.Out(i))
 		}
 	case FormOut:
 		st := reflect.New(ft.Out(0)).Elem()
 		for i, o := range r.Outs {
-			e, obj := w.newEntry(r, i, o.Impl, inv)
+			e, obj := w.newEntry(r, i, o.implFor(inv), inv)
 			inv.Outs = append(inv.Outs, e)
 			st.Field(i + 1).Set(obj.Convert(st.Field(i + 1).Type()))
 		}
@@ -521,7 +521,7 @@ func (w *World) invokeStatic(r *Reg, args []any) (any, error) {
 			return nil, f.Err
 		}
 	}
-	e, obj := w.newEntry(r, 0, r.Outs[0].Impl, inv)
+	e, obj := w.newEntry(r, 0, r.Outs[0].implFor(inv), inv)
 	inv.Outs = append(inv.Outs, e)
 	w.gate(GatePoint{Kind: GateCtorExit, Inv: inv, Goid: inv.Goid})
 	end := w.NextSeq()
@@ -591,13 +591,24 @@ func AddOptions(r *Reg) []godi.AddOption {
 func (w *World) ModuleOption(r *Reg) godi.ModuleOption {
 	svc := w.Service(r)
 	opts := AddOptions(r)
+	var add godi.ModuleOption
 	switch r.Life {
 	case Singleton:
-		return godi.AddSingleton(svc, opts...)
+		add = godi.AddSingleton(svc, opts...)
 	case Scoped:
-		return godi.AddScoped(svc, opts...)
+		add = godi.AddScoped(svc, opts...)
 	default:
-		return godi.AddTransient(svc, opts...)
+		add = godi.AddTransient(svc, opts...)
+	}
+	if len(r.Dropped) == 0 {
+		return add
+	}
+	return func(c godi.Collection) error {
+		if err := add(c); err != nil {
+			return err
+		}
+		RemoveDropped(c, r)
+		return nil
 	}
 }
 
@@ -605,33 +616,106 @@ func (w *World) ModuleOption(r *Reg) godi.ModuleOption {
 func (w *World) Register(c godi.Collection, r *Reg) error {
 	svc := w.Service(r)
 	opts := AddOptions(r)
+	var err error
 	switch r.Life {
 	case Singleton:
-		return c.AddSingleton(svc, opts...)
+		err = c.AddSingleton(svc, opts...)
 	case Scoped:
-		return c.AddScoped(svc, opts...)
+		err = c.AddScoped(svc, opts...)
 	default:
-		return c.AddTransient(svc, opts...)
+		err = c.AddTransient(svc, opts...)
+	}
+	if err == nil {
+		RemoveDropped(c, r)
+	}
+	return err
+}
+
+// RemoveDropped removes the registration's dropped identities from the collection.
+func RemoveDropped(c godi.Collection, r *Reg) {
+	if len(r.Dropped) == 0 {
+		return
+	}
+	for i, p := range r.AllProvides() {
+		if !r.Dropped[i] {
+			continue
+		}
+		if p.Ident.Key != "" {
+			c.RemoveKeyed(RType(p.Ident.T), p.Ident.Key)
+		} else {
+			c.Remove(RType(p.Ident.T))
+		}
 	}
 }
 
 // RegisterAll registers every registration of the config in the given order
-// (nil = config order); it stops at the first error.
+// (nil = config order); it stops at the first error. With Cfg.PreBuild the
+// collection is built, used and closed once on the way (see preBuild).
 func (w *World) RegisterAll(c godi.Collection, order []int) error {
 	if order == nil {
-		for i := range w.Cfg.Regs {
-			if err := w.Register(c, &w.Cfg.Regs[i]); err != nil {
-				return fmt.Errorf("register %s: %w", w.Cfg.Regs[i].String(), err)
-			}
+		order = make([]int, len(w.Cfg.Regs))
+		for i := range order {
+			order[i] = i
 		}
-		return nil
 	}
-	for _, i := range order {
+	for n, i := range order {
+		if n == w.Cfg.PreBuild && n > 0 {
+			w.preBuild(c)
+		}
 		if err := w.Register(c, &w.Cfg.Regs[i]); err != nil {
 			return fmt.Errorf("register %s: %w", w.Cfg.Regs[i].String(), err)
 		}
 	}
 	return nil
+}
+
+// preBuild builds the collection as it stands, resolves what can be resolved
+// from the provider and from one scope, closes everything and wipes the
+// ledger: what follows must behave as if this had never happened. Faults,
+// gates and close errors are suspended meanwhile. A panic is not recovered
+// here: it surfaces in the operation that registers (Build).
+func (w *World) preBuild(c godi.Collection) {
+	w.mu.Lock()
+	faults, closeErr, closeFail, onMade := w.Faults, w.CloseErr, w.CloseFailRegs, w.OnMade
+	w.Faults, w.CloseErr, w.CloseFailRegs, w.OnMade = map[[2]int]Fault{}, map[int]error{}, map[int]bool{}, nil
+	w.mu.Unlock()
+	gate := w.gateFn.Swap(nil)
+	if p, err := c.Build(); err == nil {
+		ids := w.M.AllIdents()
+		use := func(t godi.Provider) {
+			for _, id := range ids {
+				switch {
+				case id.Group != "":
+					_, _ = t.GetGroup(RType(id.T), id.Group)
+				case id.Key != "":
+					_, _ = t.GetKeyed(RType(id.T), id.Key)
+				default:
+					_, _ = t.Get(RType(id.T))
+				}
+			}
+		}
+		use(p)
+		if s, err := p.CreateScope(nil); err == nil { //nolint
+			use(s)
+			_ = s.Close()
+		}
+		_ = p.Close()
+	}
+	w.gateFn.Store(gate)
+	w.mu.Lock()
+	w.Faults, w.CloseErr, w.CloseFailRegs, w.OnMade = faults, closeErr, closeFail, onMade
+	kept := w.Entries[:0:0]
+	for _, e := range w.Entries {
+		if e.Inv == nil { // instance values live on
+			e.mu.Lock()
+			e.Closes, e.Shutdowns = nil, 0
+			e.mu.Unlock()
+			kept = append(kept, e)
+		}
+	}
+	w.Entries, w.Invs, w.CloseLog, w.Anomaly = kept, nil, nil, nil
+	w.Count = map[int]int{}
+	w.mu.Unlock()
 }
 
 // InvsOf returns the invocations of a registration (snapshot).
@@ -677,4 +761,21 @@ func (w *World) ClearFaults() {
 	w.mu.Lock()
 	w.Faults = map[[2]int]Fault{}
 	w.mu.Unlock()
+}
+
+// typedOK reports whether resolving id through the generic helpers is
+// equivalent to Provider.Get*: not for an output that is always nil, and not in
+// a run that injects a nil result.
+func (w *World) typedOK(id Ident) bool {
+	if id.T == TVoid || (w.M != nil && id.Group == "" && w.M.NilOutput(id)) {
+		return false
+	}
+	w.mu.Lock()
+	defer w.mu.Unlock()
+	for _, f := range w.Faults {
+		if f.Kind == FaultNil {
+			return false
+		}
+	}
+	return true
 }
